@@ -3,6 +3,7 @@ From Coq Require Import List Arith Bool.
 From Replicat Require Import Model.Repo Proofs.RepoProofs Proofs.RepoTie Gen.RepoFacts.
 From Replicat Require Import Model.Store Model.LocalFs Proofs.LocalFsProofs Proofs.LocalRefine.
 From Replicat Require Gen.C13Facts.
+From Replicat Require Model.LocalBuf Proofs.LocalBufProofs Proofs.LocalBufTie Gen.LocalBufGen.
 Import ListNotations.
 
 (* the step relation contains a crash of any running snapshot instance at any point (S_crash) and of
@@ -52,6 +53,31 @@ Theorem C03_local_source_facts :
   C13Facts.local_list_suffix_filter = C13Facts.local_tmp_suffix.
 Proof. exact (conj eq_refl (conj eq_refl eq_refl)). Qed.
 Print Assumptions C03_local_source_facts.
+
+(* ... and one level further down, where a process can really die: data written to the temporary sits in the process's buffer
+   until the library / OS flushes some of it (any amount, any time) or the file is closed; a kill discards the buffer.  For the
+   order of open / write / close / rename TRANSLATED from Local.upload_stream and Local.upload of the working tree, with flushes
+   interleaved arbitrarily and the kill at any point: a later process finds under the destination name either what was there
+   before or the complete new object *)
+Theorem C03_local_buffered_upload_stream_atomic : forall (byte : Type) (pieces : list (list byte)) l,
+  LocalBuf.unflush byte l = LocalBufGen.gen_upload_stream_ops pieces ->
+  forall p q, l = p ++ q ->
+    LocalBuf.visible _ (LocalBuf.exec byte p) = None \/ LocalBuf.visible _ (LocalBuf.exec byte p) = Some (concat pieces).
+Proof. exact LocalBufTie.translated_upload_stream_atomic. Qed.
+Theorem C03_local_buffered_upload_atomic : forall (byte : Type) (data : list byte) l,
+  LocalBuf.unflush byte l = LocalBufGen.gen_upload_ops data ->
+  forall p q, l = p ++ q ->
+    LocalBuf.visible _ (LocalBuf.exec byte p) = None \/ LocalBuf.visible _ (LocalBuf.exec byte p) = Some data.
+Proof. exact LocalBufTie.translated_upload_atomic. Qed.
+Print Assumptions C03_local_buffered_upload_stream_atomic.
+Print Assumptions C03_local_buffered_upload_atomic.
+(* the order is what carries it: renaming inside the open block exposes an empty file to a kill *)
+Theorem C03_local_rename_before_close_refuted :
+  let l := [LocalBuf.BOpen; LocalBuf.BWrite [1; 2; 3]; LocalBuf.BRename; LocalBuf.BClose] in
+  LocalBuf.atomic_order nat l = false /\
+  exists p q, l = p ++ q /\ LocalBuf.visible _ (LocalBuf.exec nat p) = Some [] /\ LocalBuf.written nat l = [1; 2; 3].
+Proof. exact LocalBufProofs.rename_before_close_refuted. Qed.
+Print Assumptions C03_local_rename_before_close_refuted.
 
 (* non-vacuity: a snapshot instance crashes after uploading one of two chunks: orphan (0,5) *)
 Example C03_concrete :
